@@ -84,3 +84,13 @@ brk('C19', 'polytools.py', "        return rational_limit(f.deriv(), g.deriv(), 
 ben('C19', 'polytools.py', "    for (idx1, r1), (idx2, r2) in combinations(enumerate(roots), 2):\n        if isclose(r1, r2):\n            duplicates.append(idx2)", "    for (i, ra), (j, rb) in combinations(enumerate(roots), 2):\n        if isclose(ra, rb):\n            duplicates.append(j)", 'rename loop variables')
 
 ENTRIES = E
+
+# ---------------------------------------------------------------- C14
+E.extend([
+ ('C14', 'break', P, "                integrand = x*dy", "                integrand = -x*dy", 'area integrand sign'),
+ ('C14', 'break', P, "                dy = imag(seg.poly()).deriv()", "                dy = real(seg.poly()).deriv()", 'area integrates x dx'),
+ ('C14', 'break', P, "    if len(intersections) % 2:\n        return True", "    if len(intersections) % 2 == 0:\n        return True", 'enclosure parity inverted'),
+ ('C14', 'break', P, "        opt = complex(xmin-1, ymin-1)", "        opt = complex(xmin+1, ymin+1)", 'containment probe end may be inside the bbox'),
+ ('C14', 'break', P, "            if isinstance(seg, Arc):\n                bezier_path_approximation += seg2lines(seg)", "            if isinstance(seg, Line):\n                bezier_path_approximation += seg2lines(seg)", 'arcs integrated raw'),
+ ('C14', 'benign', P, "                integrand = x*dy\n", "                integrand = -imag(seg.poly())*real(seg.poly()).deriv()\n", 'use the -y dx Green form instead of x dy'),
+])
